@@ -14,7 +14,7 @@ import (
 )
 
 //vp:property C07 C01
-//vp:bounds one legacy tunnel of client alice (RDG_OUT_DATA then RDG_IN_DATA, connection id "conn-1", full set-up, one DATA packet, then the client drops; its host has one chunk for the client); between the two requests (at = 0) or while the packet loop waits for its at-th packet (at = 1..5) a third request with the same connection id arrives from client bob: a second legacy RDG_OUT_DATA, a websocket upgrade (handshake, tunnel-create, then drops), a second RDG_IN_DATA (handshake, then drops; not at 0, where it would simply BE the tunnel's inbound connection), or an RDG_OUT_DATA request with only one of the two upgrade headers (Upgrade: websocket without Connection: upgrade, or the reverse), which cannot be upgraded
+//vp:bounds one legacy tunnel of client alice (RDG_OUT_DATA then RDG_IN_DATA, connection id "conn-1", full set-up, one DATA packet, then the client drops; its host has one chunk for the client); between the two requests (at = 0) or while the packet loop waits for its at-th packet (at = 1..5) a third request with the same connection id arrives from another address, authenticated as another user (bob) or as alice again: a second legacy RDG_OUT_DATA, a websocket upgrade (handshake, tunnel-create, then drops), a second RDG_IN_DATA (handshake, then drops; not at 0, where it would simply BE the tunnel's inbound connection), or an RDG_OUT_DATA request with only one of the two upgrade headers (Upgrade: websocket without Connection: upgrade, or the reverse), which cannot be upgraded
 //vp:assume one cooperative schedule per choice of `at` (the third request is served in full at that moment); the relay goroutine runs whenever the packet loop waits for the client; the token callback notes on the tunnel of its context who presented the token (as the security package's callback does)
 //vp:reach ended third-served
 func VP_C07_live_takeover() {
@@ -22,13 +22,14 @@ func VP_C07_live_takeover() {
 	g := &Gateway{}
 	idA, idB := vpUser(), vpUser()
 	idA.SetUserName("alice")
-	idB.SetUserName("bob")
+	idB.SetUserName([]string{"bob", "alice"}[vpIntRange("third-request-by-the-same-user", 0, 1)]) // another user, or the same user from elsewhere
 	idB.SetAttribute(identity.AttrClientIp, "10.0.0.2")
 	idB.SetAttribute(identity.AttrRemoteAddr, "10.0.0.2:4321")
 	noted := map[*Tunnel]string{}
 	g.CheckPAACookie = func(ctx context.Context, cookie string) (bool, error) {
 		if t, ok := ctx.Value(CtxTunnel).(*Tunnel); ok && t != nil {
-			noted[t] = identity.FromCtx(ctx).UserName()
+			ip, _ := identity.FromCtx(ctx).GetAttribute(identity.AttrClientIp).(string)
+			noted[t] = identity.FromCtx(ctx).UserName() + "@" + ip
 		}
 		return true, nil
 	}
@@ -111,7 +112,7 @@ func VP_C07_live_takeover() {
 	// what the callbacks note on "the tunnel of this request" lands on the live tunnel for its own client only
 	vpAssert(live != nil, "outbound-request-remembers-its-tunnel")
 	if live != nil {
-		vpAssert(noted[live] == "alice", "another-connections-callbacks-do-not-see-the-live-tunnel")
+		vpAssert(noted[live] == "alice@10.0.0.1", "another-connections-callbacks-do-not-see-the-live-tunnel")
 	}
 	// the third connection gets nothing of the live tunnel: no packet at all for a legacy request (it has
 	// no packet loop of its own), at most the answers to its own packets for a websocket
@@ -181,15 +182,15 @@ func VP_C01_legacy_second_in() {
 }
 
 //vp:property C04 C07
-//vp:bounds one legacy tunnel whose two requests come from different addresses: RDG_OUT_DATA from 10.0.0.1 (identity "first"), RDG_IN_DATA — the connection that carries the packets and with them the token — from 10.0.0.2 (identity "second"), same connection id; full set-up sequence; also the websocket transport (one request) for comparison
+//vp:bounds one legacy tunnel whose two requests come from different addresses: RDG_OUT_DATA from 10.0.0.1, RDG_IN_DATA — the connection that carries the packets and with them the token — from 10.0.0.2, same user, same connection id; full set-up sequence; also the websocket transport (one request) for comparison
 //vp:assume the callbacks record the identity they find in their context (that is where the security package's session check reads the presenting client's address); hosts reachable
 //vp:reach token-presented host-checked
 func VP_C04_legacy_presenting_identity() {
 	vpResetHandlers()
 	g := &Gateway{}
 	idOut, idIn := vpUser(), vpUser()
-	idOut.SetUserName("first")
-	idIn.SetUserName("second")
+	idOut.SetUserName("carol")
+	idIn.SetUserName("carol")
 	idIn.SetAttribute(identity.AttrClientIp, "10.0.0.2")
 	idIn.SetAttribute(identity.AttrRemoteAddr, "10.0.0.2:4321")
 	var cookieFrom, hostFrom, authFrom []string
@@ -236,13 +237,63 @@ func VP_C04_legacy_presenting_identity() {
 	vpAssert(len(cookieFrom) == 1 && len(hostFrom) == 1 && len(authFrom) == 1, "each-callback-runs-once-for-the-sequence")
 	for _, a := range cookieFrom {
 		vpReach("token-presented")
-		vpAssert(a == "second@10.0.0.2", "token-check-sees-the-client-that-presents-the-token")
+		vpAssert(a == "carol@10.0.0.2", "token-check-sees-the-client-that-presents-the-token")
 	}
 	for _, a := range authFrom {
-		vpAssert(a == "second@10.0.0.2", "client-name-check-sees-the-client-that-presents-the-token")
+		vpAssert(a == "carol@10.0.0.2", "client-name-check-sees-the-client-that-presents-the-token")
 	}
 	for _, a := range hostFrom {
 		vpReach("host-checked")
-		vpAssert(a == "second@10.0.0.2", "host-check-sees-the-client-that-presents-the-token")
+		vpAssert(a == "carol@10.0.0.2", "host-check-sees-the-client-that-presents-the-token")
+	}
+}
+
+//vp:property C05 C07 C03
+//vp:bounds one legacy RDG_OUT_DATA request of user alice, then an RDG_IN_DATA request with the same connection id whose credentials the backend confirmed for alice again or for bob (the identity the authentication middleware put on the request); full set-up sequence on the inbound connection
+//vp:assume the callbacks record the user name of the tunnel in their context: that is the name the security package evaluates the host policy for; hosts reachable
+//vp:reach served refused
+func VP_C05_legacy_pair_users() {
+	vpResetHandlers()
+	g := &Gateway{}
+	confirmed := []string{"alice", "bob"}[vpIntRange("inbound-request-confirmed-for", 0, 1)]
+	idOut, idIn := vpUser(), vpUser()
+	idOut.SetUserName("alice")
+	idIn.SetUserName(confirmed)
+	var policyFor []string
+	note := func(ctx context.Context) {
+		if t, ok := ctx.Value(CtxTunnel).(*Tunnel); ok && t != nil && t.User != nil {
+			policyFor = append(policyFor, t.User.UserName())
+		} else {
+			policyFor = append(policyFor, "<none>")
+		}
+	}
+	g.CheckPAACookie = func(ctx context.Context, cookie string) (bool, error) { note(ctx); return true, nil }
+	g.CheckClientName = func(ctx context.Context, name string) (bool, error) { note(ctx); return true, nil }
+	g.CheckHost = func(ctx context.Context, host string) (bool, error) { note(ctx); return true, nil }
+	vpAssume(!vpBool("dialfail1"))
+	mk := func(id identity.Identity, method string) *http.Request {
+		return identity.AddToRequestCtx(id, &http.Request{Method: method, Header: http.Header{"Rdg-Connection-Id": {"conn-1"}}})
+	}
+	out, in := &vpTransport{}, vpScript(4, 0)
+	wIn := &vpHTTPW{hdr: http.Header{}, tr: in}
+	g.HandleGatewayProtocol(&vpHTTPW{hdr: http.Header{}, tr: out}, mk(idOut, MethodRDGOUT))
+	g.HandleGatewayProtocol(wIn, mk(idIn, MethodRDGIN))
+	vpDropTasks()
+	vpObserve("packets-read", uint64(in.pos))
+	vpObserve("status", uint64(wIn.status))
+	if in.pos == 0 {
+		vpReach("refused")
+		vpAssert(confirmed != "alice", "the-tunnels-own-user-is-not-refused")
+		vpAssert(len(out.out) == 0 && len(vpDialLog) == 0 && len(policyFor) == 0, "a-refused-request-causes-nothing")
+		return
+	}
+	vpReach("served")
+	// the request reached the tunnel handler: the tunnel it is served on is a tunnel of the user the
+	// backend confirmed for THIS request
+	for _, u := range policyFor {
+		vpAssert(u == confirmed, "the-tunnels-user-is-the-user-confirmed-for-the-request-that-reached-it")
+	}
+	if confirmed == "alice" {
+		vpAssert(in.pos == 4 && len(out.out) == 4 && len(vpDialLog) == 1, "the-users-own-two-connections-are-paired-and-served")
 	}
 }
